@@ -509,8 +509,23 @@ func (e *Engine) immutableGlobalFacts(fc *FuncCtx, g *ssa.Global, v Value) {
 			if !ok || st.Addr != g {
 				continue
 			}
+			ln, haveLen := int64(0), false
 			if mk, ok := st.Val.(*ssa.MakeSlice); ok {
-				if ln, ok := fc.constIntVal(mk.Len); ok {
+				ln, haveLen = fc.constIntVal(mk.Len)
+			}
+			if sl, ok := st.Val.(*ssa.Slice); ok && sl.Low == nil {
+				if al, ok := sl.X.(*ssa.Alloc); ok {
+					if at, ok := al.Type().(*types.Pointer).Elem().Underlying().(*types.Array); ok {
+						if sl.High == nil {
+							ln, haveLen = at.Len(), true
+						} else {
+							ln, haveLen = fc.constIntVal(sl.High)
+						}
+					}
+				}
+			}
+			if haveLen {
+				{
 					key := "immfact:" + g.Name()
 					if !fc.u.declared[key] {
 						fc.u.declared[key] = true
@@ -527,9 +542,62 @@ func (e *Engine) immutableGlobalFacts(fc *FuncCtx, g *ssa.Global, v Value) {
 type ModSet struct {
 	all    bool
 	keys   map[string]bool
+	fresh  map[string]bool // components written only in objects allocated by the operation itself
 	allocs bool
 	ghost  bool
 	locals map[*ssa.Alloc]bool
+	scope  map[*ssa.BasicBlock]bool // blocks of the operation (nil = whole function)
+}
+
+// freshRooted: the address/value is rooted in an object allocated by an instruction inside scope.
+func freshRooted(v ssa.Value, scope map[*ssa.BasicBlock]bool, depth int) bool {
+	if depth > 6 {
+		return false
+	}
+	inScope := func(ins ssa.Instruction) bool {
+		return scope == nil || scope[ins.Block()]
+	}
+	switch x := v.(type) {
+	case *ssa.FieldAddr:
+		return freshRooted(x.X, scope, depth+1)
+	case *ssa.IndexAddr:
+		return freshRooted(x.X, scope, depth+1)
+	case *ssa.Slice:
+		return freshRooted(x.X, scope, depth+1)
+	case *ssa.Alloc:
+		et := x.Type().(*types.Pointer).Elem()
+		_, isArr := et.Underlying().(*types.Array)
+		return (x.Heap || isArr) && inScope(x)
+	case *ssa.MakeSlice:
+		return inScope(x)
+	case *ssa.MakeMap:
+		return inScope(x)
+	case *ssa.UnOp:
+		if x.Op != token.MUL {
+			return false
+		}
+		a, ok := x.X.(*ssa.Alloc)
+		if !ok || a.Heap {
+			return false
+		}
+		if _, isArr := a.Type().(*types.Pointer).Elem().Underlying().(*types.Array); isArr {
+			return false
+		}
+		if a.Referrers() == nil {
+			return false
+		}
+		n := 0
+		for _, r := range *a.Referrers() {
+			if s, ok := r.(*ssa.Store); ok && s.Addr == a {
+				n++
+				if !freshRooted(s.Val, scope, depth+1) {
+					return false
+				}
+			}
+		}
+		return n > 0
+	}
+	return false
 }
 
 func (m *ModSet) matcher() func(string) bool {
@@ -550,12 +618,34 @@ func (m *ModSet) matcher() func(string) bool {
 	}
 }
 
+// freshOnly: the components that are written only in self-allocated objects.
+func (m *ModSet) freshOnly() *ModSet {
+	out := &ModSet{keys: map[string]bool{}}
+	covered := m.matcher()
+	for k := range m.fresh {
+		if !m.keys[k] && !covered(k) {
+			out.keys[k] = true
+		}
+	}
+	return out
+}
+
+func (m *ModSet) addFresh(k string) {
+	if m.fresh == nil {
+		m.fresh = map[string]bool{}
+	}
+	m.fresh[k] = true
+}
+
 func (m *ModSet) merge(o *ModSet) {
 	if o.all {
 		m.all = true
 	}
 	for k := range o.keys {
 		m.keys[k] = true
+	}
+	for k := range o.fresh {
+		m.addFresh(k)
 	}
 	m.allocs = m.allocs || o.allocs
 	m.ghost = m.ghost || o.ghost
@@ -581,7 +671,7 @@ func (e *Engine) funcModSet(fn *ssa.Function) *ModSet {
 }
 
 func (e *Engine) loopModSet(fn *ssa.Function, li *loopInfo) *ModSet {
-	ms := &ModSet{keys: map[string]bool{}, locals: map[*ssa.Alloc]bool{}}
+	ms := &ModSet{keys: map[string]bool{}, locals: map[*ssa.Alloc]bool{}, scope: li.body}
 	for b := range li.body {
 		for _, ins := range b.Instrs {
 			e.instrMod(ms, fn, ins)
@@ -642,7 +732,11 @@ func (e *Engine) instrMod(ms *ModSet, fn *ssa.Function, ins ssa.Instruction) {
 			}
 			return
 		}
-		ms.keys[k] = true
+		if freshRooted(x.Addr, ms.scope, 0) {
+			ms.addFresh(k)
+		} else {
+			ms.keys[k] = true
+		}
 	case *ssa.MapUpdate:
 		mt := x.Map.Type().Underlying().(*types.Map)
 		k := typeKey(mt.Key()) + "!" + typeKey(mt.Elem())
@@ -653,23 +747,24 @@ func (e *Engine) instrMod(ms *ModSet, fn *ssa.Function, ins ssa.Instruction) {
 		if x.Heap {
 			ms.allocs = true
 			et := x.Type().(*types.Pointer).Elem()
-			ms.keys["O!"+typeKey(et)] = true
+			ms.addFresh("O!" + typeKey(et))
 		} else if _, isArr := x.Type().(*types.Pointer).Elem().Underlying().(*types.Array); isArr {
 			ms.allocs = true
-			ms.keys["E!"+typeKey(x.Type().(*types.Pointer).Elem().Underlying().(*types.Array).Elem())] = true
+			ms.addFresh("E!" + typeKey(x.Type().(*types.Pointer).Elem().Underlying().(*types.Array).Elem()))
 		}
 	case *ssa.MakeSlice:
 		ms.allocs = true
-		ms.keys["E!"+typeKey(x.Type().Underlying().(*types.Slice).Elem())] = true
+		ms.addFresh("E!" + typeKey(x.Type().Underlying().(*types.Slice).Elem()))
 	case *ssa.MakeMap:
 		ms.allocs = true
 		mt := x.Type().Underlying().(*types.Map)
 		k := typeKey(mt.Key()) + "!" + typeKey(mt.Elem())
-		ms.keys["MH!"+k] = true
-		ms.keys["ML!"+k] = true
+		ms.addFresh("MH!" + k)
+		ms.addFresh("ML!" + k)
 	case *ssa.MakeChan:
 		ms.allocs = true
-		ms.keys["CH"] = true
+		ms.addFresh("CH!cap")
+		ms.addFresh("CH!closed")
 	case *ssa.MakeClosure, *ssa.MakeInterface:
 		ms.allocs = true
 	case *ssa.Send, *ssa.Select:
@@ -681,7 +776,7 @@ func (e *Engine) instrMod(ms *ModSet, fn *ssa.Function, ins ssa.Instruction) {
 	case *ssa.Convert:
 		if isString(x.X.Type()) && isByteSlice(x.Type()) {
 			ms.allocs = true
-			ms.keys["E!uint8"] = true
+			ms.addFresh("E!uint8")
 		}
 	case *ssa.Call:
 		e.callMod(ms, fn, &x.Call)
@@ -785,6 +880,9 @@ func (e *Engine) contractMod(ms *ModSet, con *Contract, fn *ssa.Function) {
 			}
 			if strings.Contains(p, "!") {
 				ms.keys[p] = true
+			} else if strings.HasPrefix(p, "elemsof(") {
+				// element type unknown here: conservatively all byte elements (the only use)
+				ms.keys["E!uint8"] = true
 			} else if strings.HasPrefix(p, "elems(") {
 				ms.keys["E!"+canonTypeName(p[6:len(p)-1])] = true
 			} else if strings.HasPrefix(p, "ghost ") {
